@@ -280,6 +280,14 @@ class C16(Prop):
             out.append(("long", {"k": "filter", "l": l, "key": "k1", "vals": ["x", 2]}))
             out.append(("long", {"k": "limit", "l": l, "count": n - 1}))
 
+        # groups whose summed duration is beyond what a double holds to the microsecond (centuries, with a microsecond part)
+        for _ in range(ctx.pick(40, 600)):
+            l = revents(rng.randint(1, 6), ["x", "y"], 0.9)
+            for e in l:
+                e[2] = rng.choice([86_400 * SEC * 150_000 + 1, 86_400 * SEC * 200_000, 1, 3, 86_400 * SEC * 99_999 + 999_999])
+            out.append(("huge-durations", {"k": "merge", "l": l, "keys": ["k1"]}))
+            out.append(("huge-durations", {"k": "chunk", "l": l, "key": "k1", "pt": 5.0}))
+
         nr = ctx.pick(1500, 40000)
         for _ in range(nr):
             pool = hashpool if rng.random() < 0.85 else valpool
